@@ -27,8 +27,8 @@ rm -f /tmp/mutcheck.$$.log
 echo "CONFIRMED"
 # run the property's check against the scratch worktree (which holds the change); /repo is not touched
 rm -f zz_demo_test.go
-cd /verif
-VERIF_REPO=$W ./check $PROP --tier $TIER > $LOG 2>&1
+cd ${VERIF_ROOT:-/verif}
+VERIF_REPO=$W VERIF_REPLAY_DIR=${VERIF_ROOT:-/verif}/replays ./check $PROP --tier $TIER > $LOG 2>&1
 rc=$?
 if [ $rc -eq 1 ] && grep -q "^VIOLATION property=$PROP" $LOG; then echo "DETECTED by ./check $PROP --tier $TIER ($(grep -c '^VIOLATION' $LOG) violation lines)";
 elif [ $rc -eq 2 ]; then echo "BROKEN check (rc=2): $(grep BROKEN $LOG | head -1 | cut -c1-200)";
